@@ -57,6 +57,9 @@ class Stairs:
 
     class_name = "Stairs"
 
+    # numpy scalars on the left-hand side must defer to the reflected operators
+    __array_ufunc__ = None
+
     @Appender(docstrings.Stairs_docstring, join="\n", indents=2)
     def __init__(
         self,
